@@ -1,4 +1,6 @@
 //! Native reproducer for finding F-index-2 of vx/batches/index.py (clause `[C01:iter-err-empties]` of
+//! STATUS: open (known finding): unit tests test_parse_entry_overflow_32/64 pin the undocumented behaviour.
+//!
 //! `read::aranges::ArangeEntryIter::next`).
 //!
 //! C01: "iterators documented as stopping after an error yield nothing further".  `ArangeEntryIter::next` is documented:
